@@ -79,7 +79,6 @@ theorem go_hit (cfg : Cfg) (now : Int) (c : Coll) (query proj : Val) (update : O
            if after then
              findOneColl now c3
                (match res.upserted with
-                | some .null => Val.doc [("_id", tid)]
                 | some id => Val.doc [("_id", id)]
                 | none => Val.doc [("_id", tid)]) proj none
            else (c3, .ok old)) := by
